@@ -804,10 +804,21 @@ def check_table(ctx):
             continue
         cls = getattr(importlib.import_module(r["module"]), r["datasetClass"])
         sig = inspect.signature(cls.__init__)
-        live = {"defaultImage": sig.parameters["docker_image"].default, "defaultTag": sig.parameters["docker_tag"].default}
+        live: Dict[str, Any] = {"defaultImage": sig.parameters["docker_image"].default, "defaultTag": sig.parameters["docker_tag"].default}
+        try:
+            ds = cls(Path(__file__))
+            exe = ds.get_executor_obj()
+            live["executorClass"] = type(exe).__name__
+            live["runner"] = exe._runner_name
+            live["fileNames"] = list(exe._file_names)
+            live["templateDir"] = exe._template_dir_name
+            live["cacheVolumes"] = [(v.docker_name, v.mount_point) for v in ds.docker_cache_volume()]
+        except Exception as e:
+            live["error"] = f"{type(e).__name__}: {e}"
         ctx.count("table-row-compared")
-        if any(live[k] != r[k] for k in live):
-            ctx.disagreement("generated-table", {"backend": r["key"]}, {k: r[k] for k in live}, live)
+        mine_row = {k: (r[k] if k != "cacheVolumes" else [tuple(x) for x in r[k]]) for k in live if k != "error"}
+        if "error" in live or any(live[k] != mine_row[k] for k in mine_row):
+            ctx.disagreement("generated-table", {"backend": r["key"]}, mine_row, live)
 
 
 def run(ctx):
@@ -833,7 +844,7 @@ def run(ctx):
     if ctx.violations:  # minimise the failing input that goes into the replay file
         fl = [e for e in ev if failing(e)]
         if fl:
-            best = shrink(ctx, min(fl, key=lambda e: len(json.dumps(e["case"]))))
+            best = shrink(ctx, min(fl, key=plainness))
             ctx.violations.insert(0, as_violation(best))
             del ctx.violations[5:]
 
@@ -888,6 +899,13 @@ def simpler(case: Dict[str, Any]) -> List[Dict[str, Any]]:
     return out
 
 
+def plainness(e: Dict[str, Any]):
+    """Prefer failing inputs with ordinary file names, then short ones."""
+    c = e["case"]
+    odd = sum(1 for f in c["files"] if not re.fullmatch(r"\{B\}/d[01](/sub)?/[a-z]+\.root", f)) + (1 if c.get("cwd") else 0)
+    return (odd, len(json.dumps(c)))
+
+
 def failing(e: Dict[str, Any]) -> bool:
     return "bad" not in e["spec"] and not e["spec"].get("holds", False)
 
@@ -921,7 +939,7 @@ def search(ctx, broken):
     fl = [e for e in evaluate(ctx, cases) if failing(e)]
     if not fl:
         return None
-    best = shrink(ctx, min(fl, key=lambda e: len(json.dumps(e["case"]))))
+    best = shrink(ctx, min(fl, key=plainness))
     v = as_violation(best)
     v["known"] = v["key"] in {e["key"] for e in ctx.known_entries("known")}
     return v
